@@ -21,11 +21,12 @@ import (
 func init() {
 	register(&Prop{
 		ID: "C20", Level: "exploration",
-		Rule:        "for the seven settings (port, dbPath, maxDirCount, rootDirs, gcPeriod, numWorkers, sendDuration) every state of the file source {no file, key absent, valid, malformed} and of the environment source {unset, empty, valid, malformed where a malformed value exists}: all single-setting and pairwise combinations with the other settings at seeded states, plus seeded full combinations; the harness writes the YAML file, sets the process environment of a child process, calls the real config.ParseConfig and compares with a model of the documented precedence (values are distinct per source so provenance is visible; a malformed value in effect must be an error). Also Storage.Valid on {empty path, empty roots, limits 0/99/100/101/1e6} and ParseConfig -> inline.Open -> ParseConfig (documented defaults must survive). evaluations = ParseConfig/Valid calls compared; distinct_nontrivial = distinct (setting, file state, env state) triples + distinct pairs of such triples exercised",
+		Rule:        "for the seven settings (port, dbPath, maxDirCount, rootDirs, gcPeriod, numWorkers, sendDuration) every state of the file source {no file, key absent, valid, malformed} and of the environment source {unset, empty, valid, malformed where a malformed value exists}: all single-setting and pairwise combinations with the other settings at seeded states, plus seeded full combinations; the harness writes the YAML file, sets the process environment of a child process, calls the real config.ParseConfig and compares with a model of the documented precedence (values are distinct per source so provenance is visible; a malformed value in effect must be an error). Also other spellings of environment values (zero-padded decimals must read as decimal or be refused, base prefixes / digit separators / exponents / blanks must be reported, composite and fractional durations must keep their value), Storage.Valid on {empty path, empty roots, limits 0/99/100/101/1e6} and ParseConfig -> inline.Open -> ParseConfig (documented defaults must survive). evaluations = ParseConfig/Valid calls compared; distinct_nontrivial = distinct (setting, file state, env state) triples + distinct pairs of such triples exercised",
 		Assumptions: []string{"40-line model of the documented defaults and precedence"},
 		Roles: map[string]Role{
 			"combos": {N: func(t string) int { return 16 }, Case: c20Combos},
 			"valid":  {N: func(t string) int { return 1 }, Case: c20Valid},
+			"spell":  {N: func(t string) int { return 1 }, Case: c20Spellings},
 		},
 	})
 }
@@ -346,5 +347,69 @@ func c20Valid(tier string, seed int64, idx int, scratch string) rt.CaseResult {
 	}
 	c.AddDistinct("defaults-after-open")
 	c.Sample = map[string]any{"valid_case": "path=\"p\" roots=1 limit=99 -> nil, limit raised to 100"}
+	return c
+}
+
+// c20Spellings: other spellings of numeric and duration values in the environment. The
+// documented format is a decimal number / a Go duration: a zero-padded decimal must read as
+// its decimal value (or be refused), never as another number; spellings that are not decimal
+// numerals (base prefixes, digit separators, exponents, blanks) are malformed and must be
+// reported, not interpreted silently; composite and fractional durations must keep their value.
+func c20Spellings(tier string, seed int64, idx int, scratch string) rt.CaseResult {
+	var c rt.CaseResult
+	for _, s := range c20Settings {
+		os.Unsetenv(s.env)
+	}
+	type sp struct {
+		text string
+		dec  uint64 // decimal reading, when decimal
+		ok   bool   // a decimal numeral
+	}
+	nums := []sp{{"0500", 500, true}, {"007001", 7001, true}, {"000100", 100, true}, {"08", 8, true}, {"0", 0, true},
+		{"0x200", 0, false}, {"0X1F4", 0, false}, {"0b1100100", 0, false}, {"0o777", 0, false}, {"1_000", 0, false}, {"1e3", 0, false}, {" 500", 0, false}, {"500 ", 0, false}, {"5 00", 0, false}}
+	for _, s := range c20Settings {
+		var conv func(uint64) any
+		switch s.name {
+		case "port", "numWorkers":
+			conv = func(v uint64) any { return int(v) }
+		case "maxDirCount":
+			conv = func(v uint64) any { return v }
+		default:
+			continue
+		}
+		for _, n := range nums {
+			os.Setenv(s.env, n.text)
+			c.Evals++
+			got, err := config.ParseConfig("")
+			os.Unsetenv(s.env)
+			c.AddDistinct(fmt.Sprintf("spelling/%s/%s/err=%v", s.name, n.text, err != nil))
+			switch {
+			case err != nil:
+			case !n.ok:
+				c.Violate("malformed-value-accepted setting="+s.name+" source=env spelling", fmt.Sprintf("%s=%q is not a decimal number; ParseConfig returned no error and %s = %v", s.env, n.text, s.name, s.get(got)), map[string]any{"env": s.env, "value": n.text})
+			case !reflect.DeepEqual(s.get(got), conv(n.dec)):
+				c.Violate("numeric-value-misread setting="+s.name, fmt.Sprintf("%s=%q: %s = %v, want %v (decimal) or an error", s.env, n.text, s.name, s.get(got), n.dec), map[string]any{"env": s.env, "value": n.text})
+			}
+		}
+	}
+	durs := []struct {
+		text string
+		want time.Duration
+	}{{"1h30m", 90 * time.Minute}, {"1.5h", 90 * time.Minute}, {"0.5s", 500 * time.Millisecond}, {"2m0.25s", 2*time.Minute + 250*time.Millisecond}, {"1500ms", 1500 * time.Millisecond}, {"1us", time.Microsecond}, {"1µs", time.Microsecond}}
+	for _, s := range c20Settings {
+		if s.name != "gcPeriod" && s.name != "sendDuration" {
+			continue
+		}
+		for _, d := range durs {
+			os.Setenv(s.env, d.text)
+			c.Evals++
+			got, err := config.ParseConfig("")
+			os.Unsetenv(s.env)
+			c.AddDistinct(fmt.Sprintf("spelling/%s/%s/err=%v", s.name, d.text, err != nil))
+			if err == nil && !reflect.DeepEqual(s.get(got), d.want) {
+				c.Violate("duration-value-misread setting="+s.name, fmt.Sprintf("%s=%q: %s = %v, want %v or an error", s.env, d.text, s.name, s.get(got), d.want), map[string]any{"env": s.env, "value": d.text})
+			}
+		}
+	}
 	return c
 }
